@@ -231,6 +231,40 @@ PROPS["C18"] = {
     "design_ref": "DESIGN.md section 5, C18",
 }
 
+PROPS["C06"] = {
+    "skeleton_fns": SUP_STATE + ["supervisor_PIDZero_Shutdown", "supervisor_PIDZero_startRunnable", "supervisor_PIDZero_reloadAllRunnables"],
+    "lean_modules": ["GoSup.Props.C06"],
+    "theorems": ["GoSup.Props.C06.c06_converges_partial", "GoSup.Props.C06.c06_snapshot_partial", "GoSup.Props.C06.c06_dedup",
+                 "GoSup.Props.C06.c06_after_exit", "GoSup.Props.C06.c06_store_is_last_word", "GoSup.Props.C06.c06_close_once",
+                 "GoSup.Props.C06.c06_f1_pinned_late_subscription", "GoSup.Props.C06.c06_stale_store"],
+    "ties": [],
+    "legs": [{"name": "statemap", "cmd": "statemap", "panic_is_failure": True}],
+    "rule": "scenarios: committed corpus, then seeded supervisors with 1-3 scripted Stateable runnables (state scripts of 2-8 emissions on a "
+            "0-30 ms grid with bursts in one millisecond and repeated emissions of the same state; GetStateChan contract: current state "
+            "first, then every emission in order; one in six registers the supervisor's subscription 2-9 ms late; one in three is "
+            "Reloadable and passes through Reloading), 0-1 plain runnables, 0-3 subscribers (SubscribeStateChanges or AddStateSubscriber "
+            "with its callback; arriving before Run or at 0-19 ms, one in three leaving after 1-20 ms, one in five slow), 0-2 SIGHUPs, "
+            "ended by SIGTERM, context cancellation or Shutdown(); 12 scenarios in parallel. At rest (every script played, every delayed "
+            "subscription registered, two equal consecutive samples; on disagreement re-sampled for up to 0.5 s so that a goroutine "
+            "that merely has not been scheduled yet is not mistaken for a stuck cache) GetStateMap() is compared with GetState() of "
+            "every runnable; after Run() returned GetStateMap() is compared with the states at the return of each Stop(); every "
+            "subscriber reports its snapshot count, its last snapshot and how its channel was closed. Oracle Spec.C06.holds. "
+            "A panic of the process (send on a closed channel, double close) is a failing input. Non-trivial = every scenario; "
+            "distinct by the observation.",
+    "assumptions": ["the runnables honour the GetStateChan contract (the mock's channel is buffered beyond any script, nothing is dropped)",
+                    "entries of different runnables are independent (sync.Map, one monitor goroutine per runnable): the model is per entry"],
+    "trusted_base": [],
+    "level_text": "Invariant proof over the per-entry LTS (true state, subscription FIFO, monitor, any number of two-step writers, "
+                  "broadcast snapshots) for every state history, subscription time and schedule: without a state change inside a "
+                  "writer's read-store window the entry equals the true state at rest and the last snapshot carries it; duplicates "
+                  "cause no snapshot; after the monitors exited only Shutdown's re-store writes. Separate invariant proof for the "
+                  "subscription channel protocol: no send on closed, closed once, after unsubscription.",
+    "level_note": COMMON_NOTE + "Partial: (a) and (c) are proved under the no-stale-store hypothesis (the theorem c06_stale_store shows it is "
+                  "needed; the post-reload store of reloadAllRunnables can still write a state that a concurrent change has just made "
+                  "stale - a microsecond window no run has hit); the lift from one entry to the whole map is by independence, not proved.",
+    "design_ref": "DESIGN.md section 5, C06",
+}
+
 PROPS["C07"] = {
     "skeleton_fns": LIFECYCLE + ["composite_Runner_Run", "composite_Runner_Stop", "httpserver_Runner_Run", "httpserver_Runner_Stop",
                                  "httpcluster_Runner_Run", "httpcluster_Runner_Stop"],
